@@ -1,4 +1,5 @@
 import CarModel.Proofs.Crash
+import CarModel.Proofs.Writes
 /-
 Torn CARv2 header writes (C06, finalize phase): what `Resume` does with a 40-byte header slot that holds
 only the first `j` bytes of the final header (the rest still zero).
@@ -401,4 +402,85 @@ theorem readV2Header_bytes_small_offset (h : V2Header) (hhi : h.charHi < 2 ^ 64)
 
 theorem le64_low_zeroed (k n : Nat) (hk : k ≤ 8) : zeros k ++ (le64 n).drop k = le64 (n - n % 256 ^ k) :=
   leN_low_zeroed 8 k n hk
+theorem chunkFold_acc (parts : List Bytes) : ∀ (acc : List WriteEv) (off : Nat),
+    (parts.foldl (fun (a : List WriteEv × Nat) p => (a.1 ++ [WriteEv.write a.2 p], a.2 + p.length)) (acc, off)).1
+      = acc ++ (parts.foldl (fun (a : List WriteEv × Nat) p => (a.1 ++ [WriteEv.write a.2 p], a.2 + p.length)) ([], off)).1 := by
+  induction parts with
+  | nil => intro acc off; simp
+  | cons p ps ih =>
+    intro acc off
+    simp only [List.foldl_cons, List.nil_append]
+    rw [ih (acc ++ [WriteEv.write off p]), ih [WriteEv.write off p]]
+    simp
+
+theorem chunkEvs_cons (off : Nat) (p : Bytes) (ps : List Bytes) :
+    chunkEvs off (p :: ps) = WriteEv.write off p :: chunkEvs (off + p.length) ps := by
+  unfold chunkEvs
+  simp only [List.foldl_cons, List.nil_append]
+  rw [chunkFold_acc ps [WriteEv.write off p]]
+  simp
+
+theorem crashImage_cons_succ (F : Bytes) (w : WriteEv) (ws : List WriteEv) (k j : Nat) :
+    crashImage F (w :: ws) (k + 1) j = crashImage (w.apply F) ws k j := by
+  simp [crashImage, applyWrites, WriteEv.apply]
+
+/-- Every crash image of a run of appending writes (one `Write` call per part, the first at the end of the
+    file): the file, the parts that were written completely, and the first `j` bytes of the next one. -/
+theorem crashImage_chunks : ∀ (parts : List Bytes) (F : Bytes) (k j : Nat),
+    crashImage F (chunkEvs F.length parts) k j
+      = F ++ (parts.take k).flatten ++ ((parts[k]?).getD []).take j := by
+  intro parts
+  induction parts with
+  | nil => intro F k j; simp [chunkEvs, crashImage, applyWrites]
+  | cons p ps ih =>
+    intro F k j
+    rw [chunkEvs_cons]
+    cases k with
+    | zero =>
+      simp only [crashImage, List.take_zero, List.nil_append, List.getElem?_cons_zero, WriteEv.cut, applyWrites,
+        List.flatten_nil, List.append_nil, Option.getD_some]
+      by_cases hj : j = 0
+      · simp [hj]
+      · simp only [hj, ↓reduceIte, List.foldl_cons, List.foldl_nil, WriteEv.apply]
+        by_cases hp : p.take j = []
+        · simp [writeAt, hp]
+        · rw [writeAt_end]
+    | succ k =>
+      rw [crashImage_cons_succ]
+      simp only [WriteEv.apply]
+      by_cases hp : p = []
+      · subst hp
+        simp only [writeAt_nil, List.length_nil, Nat.add_zero]
+        rw [ih F k j]; simp
+      · rw [writeAt_end]
+        have := ih (F ++ p) k j
+        simp only [List.length_append] at this
+        rw [this]; simp
+
+/-- … and such an image is the file followed by a PREFIX of the concatenated parts. -/
+theorem chunks_prefix : ∀ (parts : List Bytes) (k j : Nat),
+    ∃ m, m ≤ parts.flatten.length ∧ (parts.take k).flatten ++ ((parts[k]?).getD []).take j = parts.flatten.take m := by
+  intro parts
+  induction parts with
+  | nil => intro k j; exact ⟨0, by simp, by simp⟩
+  | cons p ps ih =>
+    intro k j
+    cases k with
+    | zero =>
+      refine ⟨min j p.length, by simp; omega, ?_⟩
+      simp only [List.take_zero, List.flatten_nil, List.nil_append, List.getElem?_cons_zero, Option.getD_some,
+        List.flatten_cons]
+      rw [List.take_append_of_le_length (Nat.min_le_right _ _)]
+      by_cases h : j ≤ p.length
+      · rw [Nat.min_eq_left h]
+      · rw [Nat.min_eq_right (by omega), List.take_of_length_le (by omega), List.take_of_length_le (Nat.le_refl _)]
+    | succ k =>
+      obtain ⟨m, hm, he⟩ := ih k j
+      refine ⟨p.length + m, by rw [List.flatten_cons, List.length_append]; omega, ?_⟩
+      have h1 : ((p :: ps).take (k + 1)).flatten ++ (((p :: ps)[k + 1]?).getD []).take j
+          = p ++ ((ps.take k).flatten ++ ((ps[k]?).getD []).take j) := by
+        simp [List.take_succ_cons]
+      have h2 : (p :: ps).flatten.take (p.length + m) = p ++ ps.flatten.take m := by
+        rw [List.flatten_cons, List.take_append, List.take_of_length_le (Nat.le_add_right _ _), Nat.add_sub_cancel_left]
+      rw [h1, h2, he]
 end Car
